@@ -97,6 +97,42 @@ Example ex_retry_same_id :
   r_success res3 = true /\ owner s3 1 = None /\ active s3 = [].
 Proof. vm_compute. intuition congruence. Qed.
 
+(* a NESTED coordinated operation: op1 (holding r3 twice) runs execute_operation(op2, [r2])
+   from inside its work function - op2 preempts op5's r2, commits and gives it back -,
+   a second nested call under op1's own id is not made by the driver, then op1's
+   validation fails: the enclosing call reports failure and leaves nothing behind,
+   op5 keeps r1.  The nested call shows in op1's log as ONE event: its encoded
+   result (success, phase M, its own callback log). *)
+Definition sc_nested_then_fail : script :=
+  mkScript [] [] [WProbe; WExec 2 4 [2] sc_plain; WExec 1 0 [] sc_plain; WProbe] false VFalse.
+Example ex_nested_then_validation_fails :
+  let '(s', res) := exec_op current no_timeouts st0 1 3 [3; 3] sc_nested_then_fail in
+  r_success res = false /\ probe s' = [(5, 1); (-1, 0); (-1, 0)] /\ active s' = [5] /\
+  length (filter is_work (r_log res)) = 1%nat /\
+  map obs_ev (r_log res) =
+    [[0; 0; 1]; [0; 1; 1]; [1]; [2; 5; 1; 5; 2; 1; 2];
+     [3; 50; 1; 4;  3; 0; 0; 1;  3; 0; 1; 1;  1; 1;  7; 2; 5; 1; 2; 1; 1; 2;  1; 4;  3; 0; 2; 1;  2; 6; 1;  3; 0; 3; 1];
+     [3; 50; -1]; [2; 5; 1; -1; 0; 1; 2]; [4]; [0; 2; 1]; [6; 0]].
+Proof. vm_compute. auto 10. Qed.
+
+(* the hypotheses of [c14_nested_no_leak] with a non-trivial enclosing chain: in [s2]
+   (see ex_wfbut_not_wf) op1 is delisted and owns r2 and r3 - not well-formed, but
+   well-formed up to [1].  A nested execute_operation(op2, priority 9, [r3; r1]) preempts
+   op1's r3, is blocked on r1, gives r3 back; one of priority 0 on [r1] touches nothing. *)
+Example ex_nested_in_delisted_operation :
+  let s0 := fst (fstep current no_timeouts (start_op st0 1 3 false) (FKill 1)) in
+  let s2 := fst (acquire_all current s0 1 0 [3; 2; 3]) in
+  WFbuts [1] s2 /\ ~ WF s2 /\ ~ In 2 (active s2) /\ probe s2 = [(5, 1); (1, 1); (1, 2)] /\
+  (let '(s', res) := exec_in true current no_timeouts sc_plain [1] s2 2 9 [3; 1] in
+   r_success res = false /\ probe s' = [(5, 1); (1, 1); (-1, 0)] /\ active s' = [5]) /\
+  (let '(s', res) := exec_in true current no_timeouts sc_plain [1] s2 2 0 [1] in
+   r_success res = false /\ probe s' = probe s2 /\ active s' = [5]).
+Proof.
+  cbv zeta. split; [apply ex_wfbut_not_wf|].
+  split. { intros W. apply (wf_owner_active _ 3 1) in W; [|reflexivity]. vm_compute in W. intuition lia. }
+  vm_compute. intuition lia.
+Qed.
+
 (* watchdog: a two-party deadlock, the lower-priority member is terminated *)
 Definition hist_dl : list op :=
   [OFlat (FStart 1 2 false); OFlat (FStart 2 1 false); OFlat (FAcquire 1 1); OFlat (FAcquire 2 2);
